@@ -176,7 +176,7 @@ def setup_config(
     l_1 = config["simulation"]["tis_set"].get("lambda_minus_one", False)
     config["simulation"]["tis_set"]["lambda_minus_one"] = l_1
 
-    if quantis and not has_ens_engs:
+    if quantis and not has_ens_engs and ens_engs:
         config["simulation"]["ensemble_engines"][0] = ["engine0"]
     accept_all = config["simulation"]["tis_set"].get("accept_all", False)
     config["simulation"]["tis_set"]["accept_all"] = accept_all
@@ -202,6 +202,9 @@ def check_config(config: dict) -> None:
     lambda_minus_one = config["simulation"]["tis_set"].get(
         "lambda_minus_one", False
     )
+
+    if n_ens < 2:
+        raise TOMLConfigError("Define at least 2 interfaces!")
 
     if lambda_minus_one is not False and lambda_minus_one >= intf[0]:
         raise TOMLConfigError(
